@@ -9,7 +9,9 @@ import (
 	"os"
 	"path/filepath"
 	"strings"
+	"sync"
 	"testing/iotest"
+	"time"
 
 	"github.com/foxboron/go-uefi/efi/signature"
 )
@@ -186,9 +188,58 @@ func c10EvalAuth(c *Ctx, cs Case) {
 	// a success says that the 16 + dwLength bytes of the descriptor were there and were consumed: an input that ends
 	// before them can only be answered with an error
 	if err == nil {
-		if len(b) < 40 || 16+uint64(binary.LittleEndian.Uint32(b[16:20])) > uint64(len(b)) {
+		if len(b) < 24 || 16+uint64(binary.LittleEndian.Uint32(b[16:20])) > uint64(len(b)) {
 			fail(fmt.Sprintf("ReadEFIVariableAuthencation2 returned a value and no error although the input (%d bytes) ends before the 16 + dwLength bytes of the descriptor", len(b)), "")
 			return
+		}
+		// ... and that timestamp, revision, certificate type, type GUID and certificate data were recovered from these
+		// bytes (whatever the certificate type says): the declared bytes hold the 8-byte WIN_CERTIFICATE header and the
+		// 16-byte type GUID only when dwLength is at least 24 - a descriptor that declares less has no type GUID to
+		// recover - and the value must hold exactly the fields the declared bytes spell out, the source must be left
+		// exactly behind them and the value must encode to them again. Written from the layout, independent of the model.
+		dw := int(binary.LittleEndian.Uint32(b[16:20]))
+		if dw < 24 {
+			fail(fmt.Sprintf("ReadEFIVariableAuthencation2 returned a value and no error for a descriptor whose dwLength is %d: the declared bytes are shorter than the WIN_CERTIFICATE header plus the type GUID (24), so no type GUID can have been recovered from them", dw), "")
+			return
+		}
+		want := fmt.Sprintf("ok time=%s len=%d rev=%d type=%d guid=%s data=%s rest=%d", hx(b[:16]), dw, binary.LittleEndian.Uint16(b[20:]), binary.LittleEndian.Uint16(b[22:]), hx(b[24:40]), hx(b[40:16+dw]), len(b)-16-dw)
+		if got := goObs[:strings.Index(goObs, " reenc=")]; got != want {
+			c.Fail(Failure{Kind: "property", What: "ReadEFIVariableAuthencation2 succeeded but the value does not hold the timestamp, header fields, type GUID and certificate data that the 16 + dwLength declared bytes spell out, or the source was not left exactly behind them", Case: cs, Go: clip(got), Spec: clip(want)})
+			return
+		}
+		if !bytes.Equal(reenc, b[:16+dw]) {
+			fail(fmt.Sprintf("encoding the decoded descriptor gives %d bytes, not the %d bytes that were consumed", len(reenc), 16+dw), "c10.body_written_twice")
+			return
+		}
+	}
+	// the WIN_CERTIFICATE_UEFI_GUID part has a decoder of its own (ReadWinCertificateUEFIGUID; a caller that has read
+	// the timestamp itself uses it, and it accepts every certificate type): behind the 16 timestamp bytes a success
+	// says that the 8-byte header and a 16-byte type GUID lie inside the dwLength declared bytes, that these were
+	// present, that the value holds exactly the fields they spell out and that the source is left exactly behind
+	// them; and where the descriptor decoder succeeds, this one must
+	if len(b) >= 16 {
+		cb := b[16:]
+		r2 := newSrcReader(cs.S("reader"), cb)
+		var w signature.WinCertificateUEFIGUID
+		var werr error
+		p2, pmsg2 := safely(func() { w, werr = signature.ReadWinCertificateUEFIGUID(r2.r) })
+		r2.clobber()
+		switch {
+		case p2:
+			fail("ReadWinCertificateUEFIGUID panicked: "+pmsg2, "")
+		case werr == nil:
+			dw := -1
+			if len(cb) >= 8 {
+				dw = int(binary.LittleEndian.Uint32(cb))
+			}
+			got := fmt.Sprintf("len=%d rev=%d type=%d guid=%s data=%s rest=%d", w.Header.Length, w.Header.Revision, uint16(w.Header.CertType), hx(wireGUID(w.CertType)), hx(w.CertData), r2.rest)
+			if dw < 24 || dw > len(cb) {
+				c.Fail(Failure{Kind: "property", What: fmt.Sprintf("ReadWinCertificateUEFIGUID returned a value and no error on %d bytes whose dwLength is %d: the declared bytes must hold the 8-byte header and the 16-byte type GUID (dwLength >= 24) and must be present", len(cb), dw), Case: cs, Go: clip(got), Spec: "an error"})
+			} else if want := fmt.Sprintf("len=%d rev=%d type=%d guid=%s data=%s rest=%d", dw, binary.LittleEndian.Uint16(cb[4:]), binary.LittleEndian.Uint16(cb[6:]), hx(cb[8:24]), hx(cb[24:dw]), len(cb)-dw); got != want {
+				c.Fail(Failure{Kind: "property", What: "ReadWinCertificateUEFIGUID succeeded but the value does not hold the header fields, type GUID and certificate data that the dwLength declared bytes spell out, or the source was not left exactly behind them", Case: cs, Go: clip(got), Spec: clip(want)})
+			}
+		case err == nil:
+			c.Fail(Failure{Kind: "property", What: "ReadEFIVariableAuthencation2 decodes a descriptor whose WIN_CERTIFICATE_UEFI_GUID part ReadWinCertificateUEFIGUID rejects behind the timestamp", Case: cs, Go: "ReadWinCertificateUEFIGUID: err", Spec: clip(goObs)})
 		}
 	}
 	// oracle: on descriptors that are well-formed by the specification's layout (revision 0x0200, type 0x0EF1)
@@ -583,12 +634,166 @@ func c10SeqShrunk(c *Ctx, cs Case) {
 	c.ReplaceFailuresFrom(n0, best)
 }
 
+// ---- several descriptor decoders at the same time ----
+//
+// "Decoding a descriptor consumes exactly the bytes its length field declares ... and recovers timestamp, revision,
+// certificate type, type GUID and certificate data exactly" speaks about one source and one call. A program decodes
+// the signed updates of several variables on different goroutines, and a source need not hand over what is asked for
+// in one piece: a pipe, a socket or a slow file delivers a few bytes per Read and blocks in between. So k descriptors
+// (each followed by its payload) are decoded at the same time, each through a reader that delivers at most `chunk`
+// bytes per call and parks inside every Read - before it touches the destination, or after the bytes are in place
+// but before Read returns - handing control to the next decoder following a switch plan that is part of the case
+// (lockstep / parkReader of c07.go: exactly one goroutine runs at any time, every run is deterministic and
+// replayable). Every call must return what the same call through the same kind of reader returns alone.
+func c10AuthObs(d *signature.EFIVariableAuthentication2, err error, panicked bool, r *parkReader) string {
+	switch {
+	case panicked:
+		return "panic"
+	case err != nil || d == nil:
+		return "err"
+	}
+	var mb bytes.Buffer
+	if p, _ := safely(func() { d.Marshal(&mb) }); p {
+		return "ok " + authObjFields(d) + " encoder-panic"
+	}
+	return fmt.Sprintf("ok %s rest=%d reenc=%s", authObjFields(d), len(r.data)-r.pos, hx(mb.Bytes()))
+}
+
+func c10Concurrent(c *Ctx, cs Case) {
+	var descs [][]byte
+	for _, h := range strList(cs["descs"]) {
+		descs = append(descs, unhx(h))
+	}
+	if len(descs) < 2 || len(descs) > 8 {
+		return
+	}
+	plan := unhx(cs.S("plan"))
+	after := cs.S("park") == "after"
+	chunk := int(cs.I("chunk"))
+	decode := func(s *lockstep, which, me int) string {
+		r := &parkReader{data: append([]byte{}, descs[which]...), chunk: chunk, after: after, s: s, me: me}
+		var d *signature.EFIVariableAuthentication2
+		var err error
+		p, _ := safely(func() { d, err = signature.ReadEFIVariableAuthencation2(r) })
+		return c10AuthObs(d, err, p, r)
+	}
+	// each call alone, through the same kind of reader (a lockstep of one decoder never hands over)
+	alone := make([]string, len(descs))
+	for i := range descs {
+		alone[i] = decode(newLockstep(1, plan), i, 0)
+	}
+	s := newLockstep(len(descs), plan)
+	together := make([]string, len(descs))
+	var wg sync.WaitGroup
+	for i := range descs {
+		wg.Add(1)
+		go func(i int) {
+			defer wg.Done()
+			s.enter(i)
+			together[i] = decode(s, i, i) // still this goroutine's turn when the observation is taken: nothing else runs
+			s.leave(i)
+		}(i)
+	}
+	done := make(chan struct{})
+	go func() { wg.Wait(); close(done) }()
+	select {
+	case <-done:
+	case <-time.After(60 * time.Second):
+		c.Fail(Failure{Kind: "property", What: "concurrent descriptor decoders did not return within 60 s", Case: cs})
+		return
+	}
+	obs := "same"
+	for i := range descs {
+		if together[i] != alone[i] {
+			obs = "differs"
+		}
+	}
+	c.Count(cs.Key(), true, fmt.Sprintf("auth/concurrent/%d-decoders/park-%s/chunk-%d/%s", len(descs), cs.S("park"), chunk, obs))
+	for i := range descs {
+		if together[i] != alone[i] {
+			c.Fail(Failure{Kind: "property", What: fmt.Sprintf("descriptor decoder %d of %d running at the same time returns something else than the same call alone: what ReadEFIVariableAuthencation2 recovers depends on what other decoders in the process are doing", i, len(descs)),
+				Case: cs, Go: clip(together[i]), Spec: clip(alone[i])})
+			return
+		}
+	}
+}
+
+// c10ConcurrentCases: groups of 2..3 descriptors (the same layout with other timestamps, GUIDs and data - the decoders
+// are at the same point of their inputs - or unrelated ones; one in eight cut short or with a wrong revision) x switch
+// plans x parking point x piece size (whole reads, 1, 3, 5 and 7 bytes: the 16-byte timestamp, the 8-byte header and
+// the body then arrive in several pieces)
+func c10ConcurrentCases(c *Ctx, n int) {
+	sub := &Ctx{Rng: mrand.New(mrand.NewSource(c.Seed*67867967 + 19 + int64(c.Shard)*1000003)), Thorough: c.Thorough}
+	plans := []string{"01", "0001", "0100", "000001", "01010001"}
+	mk := func(n int) []byte {
+		guid := wirePKCS7GUID
+		if sub.Rng.Intn(3) == 0 {
+			guid = randBytes(sub, 16)
+		}
+		return mkAuth(randBytes(sub, 16), uint32(24+n), 0x0200, 0x0EF1, guid, randBytes(sub, n), randBytes(sub, []int{0, 1, 28, sub.Rng.Intn(80)}[sub.Rng.Intn(4)]))
+	}
+	for i := 0; i < n && c.NFailures() < 8; i++ {
+		k := 2 + i%2*(i/2%2)
+		n0 := []int{0, 1, 7, 16, 100, sub.Rng.Intn(600)}[sub.Rng.Intn(6)]
+		ds := []string{}
+		for len(ds) < k {
+			d := mk(n0)
+			if i%3 == 2 && len(ds) > 0 {
+				d = mk([]int{0, 1, 7, 16, 100, sub.Rng.Intn(600)}[sub.Rng.Intn(6)])
+			}
+			if i%8 == 7 && len(ds) == k-1 {
+				if sub.Rng.Intn(2) == 0 {
+					d = d[:sub.Rng.Intn(len(d))]
+				} else {
+					d[20] ^= 1
+				}
+			}
+			ds = append(ds, hx(d))
+		}
+		plan := plans[i%len(plans)]
+		if i%7 == 6 {
+			plan = hx(randBytes(sub, 8))
+		}
+		c10Concurrent(c, Case{"op": "concurrent", "descs": ds, "plan": plan, "park": []string{"after", "before"}[i/2%2], "chunk": int64([]int{0, 5, 1, 3, 7}[i/4%5])})
+	}
+}
+
+// c10ShortLengths: descriptors whose dwLength lies around the fixed part of the layout - EVERY value from 8 (the bare
+// WIN_CERTIFICATE header) over 9..23 (a type GUID cut short) and 24 (no certificate data) to 40 - with exactly the
+// declared bytes present, and with a payload of 1 / 28 bytes behind them, certificate types 0x0EF1 (and 0x0002 /
+// 0x0EF0 for every fourth), through every reader kind
+func c10ShortLengths(c *Ctx) {
+	sub := &Ctx{Rng: mrand.New(mrand.NewSource(c.Seed*49979693 + 23 + int64(c.Shard)*1000003)), Thorough: c.Thorough}
+	i := 0
+	for dw := 8; dw <= 40; dw++ {
+		for pi, pl := range []int{0, 1, 28} {
+			for _, k := range readerKinds {
+				if i++; !c.Mine(i) || c.NFailures() >= 8 {
+					continue
+				}
+				typ := uint16(0x0EF1)
+				if i%4 == 3 {
+					typ = []uint16{2, 0x0EF0}[i/4%2]
+				}
+				b := append(randBytes(sub, 16), make([]byte, 8)...)
+				binary.LittleEndian.PutUint32(b[16:], uint32(dw))
+				binary.LittleEndian.PutUint16(b[20:], 0x0200)
+				binary.LittleEndian.PutUint16(b[22:], typ)
+				b = append(b, randBytes(sub, dw-8+pl)...)
+				c10EvalAuth(c, Case{"op": "auth", "class": fmt.Sprintf("dwLength-%d-%s", dw, []string{"exact", "+payload1", "+payload28"}[pi]), "reader": k, "bytes": hx(b)})
+			}
+		}
+	}
+}
+
 func c10Eval(c *Ctx, cs Case) {
 	switch cs.S("op") {
 	case "wincert":
 		c10EvalWinCert(c, cs)
 	case "seq":
 		c10SeqShrunk(c, cs)
+	case "concurrent":
+		c10Concurrent(c, cs)
 	default:
 		c10EvalAuth(c, cs)
 	}
@@ -765,11 +970,15 @@ func c10Gen(c *Ctx) {
 		b.Write(randBytes(c, n+3))
 		c10EvalWinCert(c, Case{"op": "wincert", "class": "wf-64k", "reader": readerKinds[i%len(readerKinds)], "bytes": hx(b.Bytes())})
 	}
+	// declared lengths around the fixed part of the layout: every dwLength 8..40, the declared bytes present
+	c10ShortLengths(c)
+	// several descriptors decoded at the same time, each through a source that delivers its bytes in pieces and parks inside Read
+	c10ConcurrentCases(c, c.N(100, 4000))
 }
 
 func init() {
 	register("C10", &PropDef{
-		Rule:   "descriptors with any timestamp, certificate-data length in {0,1,7,16,100,1500,random<=64KiB, and 65511..65536 where dwLength crosses 2^16}, PKCS7 or random type GUID, followed by payloads of 0..300 bytes; variants with a wrong revision, a declared length beyond the data, and a declared length shorter than the data (surplus is payload); the .auth fixtures of the repository; plain WIN_CERTIFICATEs of all three certificate types (up to 64 KiB). INPUTS THAT END EARLY: 40 well-formed WIN_CERTIFICATEs (all three types, bodies of 1..3000 bytes) cut at every position inside the 8-byte header and inside the body (every position for bodies up to 40 bytes, the first 12 / last 4 positions and a sample otherwise) are handed to ReadWinCertificate DIRECTLY through every reader kind (sources ending with a plain io.EOF, and one handing out its last data together with io.EOF); oracle, independent of the model: ReadWinCertificate (any revision, any type) and ReadEFIVariableAuthencation2 may return a nil error only when the header and the bytes its length field declares were present, the value then holds exactly these fields and body bytes and the source is left exactly behind them - an input cut short is answered with an error, never with a (zero) value and a nil error. Each input is handed to the decoder through a bytes.Reader, a bytes.Buffer, a one-byte-at-a-time reader, a reader that returns its last data together with io.EOF, or a half-count reader, over a private copy, and the source (buffer drained, reset and reused; backing array overwritten) is destroyed before the decoded value is inspected and re-encoded. Sequences on ONE EFIVariableAuthentication2 value (2..6 steps): it is built by NewEFIVariableAuthentication2 or decoded, then again decoded into as the receiver of Unmarshal (so a second, third descriptor - with empty or non-empty certificate data, dwLength 24..24+1500 - lands in an object that held another one), replaced by the result of ReadEFIVariableAuthencation2, given a new AuthInfo by ReadWinCertificateUEFIGUID, and edited (Time, type GUID, certificate data with dwLength adjusted); after every step the object must hold exactly the fields these steps define, must encode (Marshal and WriteEFIVariableAuthencation2, also compared with the encoder model and Spec.encAuth through the driver op auth.write) to the 16+dwLength bytes of their declared-length layout, and decoding that encoding in front of a payload must return the fields and leave the payload; failing sequences are shrunk by deleting steps. DESTINATIONS THAT ALREADY HOLD CONTENT: every successfully decoded descriptor / WIN_CERTIFICATE and every value of a sequence step is also encoded (Marshal, WriteEFIVariableAuthencation2, WriteWinCertificateUEFIGUID, WriteWinCertificate) into three buffers that are not empty - the four attribute bytes of an efivarfs file, 1/15/16/17/40/300 bytes, a whole earlier encoding of the same value (a second descriptor appended behind the first), each also with a part of the content already read; oracle: the unread content stays as it is and exactly the bytes the same call writes into an empty destination follow it. Inputs on which the unrepaired decoder would terminate the process (body shorter than a GUID, dwLength < 8) belong to C13/C14 and are generated there. Non-trivial: longer than the fixed header; distinct = distinct byte strings.",
+		Rule:   "descriptors with any timestamp, certificate-data length in {0,1,7,16,100,1500,random<=64KiB, and 65511..65536 where dwLength crosses 2^16}, PKCS7 or random type GUID, followed by payloads of 0..300 bytes; variants with a wrong revision, a declared length beyond the data, and a declared length shorter than the data (surplus is payload); the .auth fixtures of the repository; plain WIN_CERTIFICATEs of all three certificate types (up to 64 KiB). INPUTS THAT END EARLY: 40 well-formed WIN_CERTIFICATEs (all three types, bodies of 1..3000 bytes) cut at every position inside the 8-byte header and inside the body (every position for bodies up to 40 bytes, the first 12 / last 4 positions and a sample otherwise) are handed to ReadWinCertificate DIRECTLY through every reader kind (sources ending with a plain io.EOF, and one handing out its last data together with io.EOF); oracle, independent of the model: ReadWinCertificate (any revision, any type) and ReadEFIVariableAuthencation2 may return a nil error only when the header and the bytes its length field declares were present, the value then holds exactly these fields and body bytes and the source is left exactly behind them - an input cut short is answered with an error, never with a (zero) value and a nil error. Each input is handed to the decoder through a bytes.Reader, a bytes.Buffer, a one-byte-at-a-time reader, a reader that returns its last data together with io.EOF, or a half-count reader, over a private copy, and the source (buffer drained, reset and reused; backing array overwritten) is destroyed before the decoded value is inspected and re-encoded. Sequences on ONE EFIVariableAuthentication2 value (2..6 steps): it is built by NewEFIVariableAuthentication2 or decoded, then again decoded into as the receiver of Unmarshal (so a second, third descriptor - with empty or non-empty certificate data, dwLength 24..24+1500 - lands in an object that held another one), replaced by the result of ReadEFIVariableAuthencation2, given a new AuthInfo by ReadWinCertificateUEFIGUID, and edited (Time, type GUID, certificate data with dwLength adjusted); after every step the object must hold exactly the fields these steps define, must encode (Marshal and WriteEFIVariableAuthencation2, also compared with the encoder model and Spec.encAuth through the driver op auth.write) to the 16+dwLength bytes of their declared-length layout, and decoding that encoding in front of a payload must return the fields and leave the payload; failing sequences are shrunk by deleting steps. DESTINATIONS THAT ALREADY HOLD CONTENT: every successfully decoded descriptor / WIN_CERTIFICATE and every value of a sequence step is also encoded (Marshal, WriteEFIVariableAuthencation2, WriteWinCertificateUEFIGUID, WriteWinCertificate) into three buffers that are not empty - the four attribute bytes of an efivarfs file, 1/15/16/17/40/300 bytes, a whole earlier encoding of the same value (a second descriptor appended behind the first), each also with a part of the content already read; oracle: the unread content stays as it is and exactly the bytes the same call writes into an empty destination follow it. DECLARED LENGTHS AROUND THE FIXED PART: descriptors with EVERY dwLength from 8 (the bare WIN_CERTIFICATE header) over 9..23 (a type GUID cut short) and 24 (no certificate data) to 40, with exactly the declared bytes present and with a payload of 1 / 28 bytes behind them, certificate types 0x0EF1 / 0x0002 / 0x0EF0, through every reader kind; oracle, independent of the model, on EVERY successful ReadEFIVariableAuthencation2 of the run: dwLength is at least 24 (otherwise the declared bytes hold no type GUID that could have been recovered), the value holds exactly the timestamp, length, revision, certificate type, type GUID and certificate data that the 16 + dwLength declared bytes spell out, the source is left exactly behind them and the value encodes to them again; and ReadWinCertificateUEFIGUID, the decoder of the part behind the timestamp (any certificate type), is run on every evaluated descriptor: a success requires dwLength >= 24, the declared bytes present, exactly their fields in the value and the source left exactly behind them, and it must succeed wherever the descriptor decoder does. SEVERAL DECODERS AT THE SAME TIME (100 groups of 2 or 3 descriptors, each followed by its payload; two thirds of one layout with other timestamps, GUIDs and data, one in eight with a member cut short or of a wrong revision): each descriptor is decoded on its own goroutine through a source that delivers its bytes in pieces (whole reads, or at most 1 / 3 / 5 / 7 bytes per Read, so that timestamp, header and body arrive in several pieces, as from a pipe) and parks inside every Read - before it touches the destination, or after the bytes are in place but before Read returns - handing control to the next decoder following a switch plan that is part of the case (every parking point, every 2nd / 3rd, mixed, random), so exactly one goroutine runs at a time and every run is deterministic; oracle: every call returns the fields, the bytes left in its source and the re-encoding that the same call through the same reader returns alone. Inputs on which the unrepaired decoder would terminate the process (body shorter than a GUID, dwLength < 8) belong to C13/C14 and are generated there. Non-trivial: longer than the fixed header; distinct = distinct byte strings.",
 		Assume: []string{},
 		Eval:   c10Eval, Gen: c10Gen,
 	})
